@@ -166,3 +166,6 @@ def check(ck):
         ck.require(dump(c.args[0]) == want, "C07.5", "%s: %s branch emits %s" % (q.fn(fdump), fn_, dump(c.args[0])), want,
                    "%s objects are dumped with constructor arguments %s instead of %s" % (fn_[9:], dump(c.args[0]), want), q.loc(fdump, n))
     ck.floor("C07.5", 6)
+
+    # ---- C07.6 the per-request configuration copy keeps the serialisation settings ------------------------
+    common.check_config_copy(ck, "C07.6", only=("serialize_method", "ignore_attribute", "serialize_handlers", "classes", "use_jsonclass"))
